@@ -11,6 +11,7 @@ SPEC = {
     ],
     "engines": [
         {"name": "pipe", "pkg": "./pipe", "search_cases": 20000},
+        {"name": "sys", "pkg": "./sys", "search_cases": 6000},
     ],
     "rule": "random histories of one alert group (4 alerts appearing/firing/resolving/vanishing, some muted per flush) flushed through the REAL "
             "PipelineBuilder.New stage chain with 1-2 integrations (send_resolved on/off, per-flush accept/reject, delivery delay, tick lagging "
